@@ -147,10 +147,11 @@ func ruleC17Reserve(cx *Ctx) {
 		if !ok {
 			continue
 		}
-		k, isK := constInt(b.Y)
-		d, isD := b.X.(*ssa.BinOp)
+		bx, bop, by := constOnRight(b)
+		k, isK := constInt(by)
+		d, isD := bx.(*ssa.BinOp)
 		if isK && isD && d.Op == token.SUB && d.X == t && atomicFieldLoad(d.Y, head) {
-			if (b.Op == token.GEQ && !g.Truth && k == n) || (b.Op == token.LSS && g.Truth && k == n) || (b.Op == token.GTR && !g.Truth && k == n-1) {
+			if (bop == token.GEQ && !g.Truth && k == n) || (bop == token.LSS && g.Truth && k == n) || (bop == token.GTR && !g.Truth && k == n-1) || (bop == token.LEQ && g.Truth && k == n-1) {
 				capOK = true
 			}
 		}
@@ -209,8 +210,10 @@ func ruleC17Reserve(cx *Ctx) {
 			onCap := false
 			for _, g := range guardsAt(ret.Block()) {
 				// size >= capacity, in either spelling: (size >= n) true, or (size < n) false
-				if b, ok := g.Cond.(*ssa.BinOp); ok && ((b.Op == token.GEQ && g.Truth) || (b.Op == token.LSS && !g.Truth)) {
-					onCap = true
+				if b, ok := g.Cond.(*ssa.BinOp); ok {
+					if _, bop, _ := constOnRight(b); (bop == token.GEQ && g.Truth) || (bop == token.LSS && !g.Truth) {
+						onCap = true
+					}
 				}
 			}
 			cx.R.Check(onCap && !canReach(cas, ret), rule, name, "Full", cx.P.where(ret), "Full is returned only on the capacity edge, without reserving")
@@ -1029,4 +1032,18 @@ func slotFromHelper(v ssa.Value, buffers *types.Var) []*ssa.IndexAddr {
 		return nil
 	}
 	return out
+}
+
+
+// constOnRight: the comparison with its constant operand on the right (16 <= size is size >= 16).
+func constOnRight(b *ssa.BinOp) (ssa.Value, token.Token, ssa.Value) {
+	if _, lc := constInt(b.X); lc {
+		if _, rc := constInt(b.Y); !rc {
+			m := map[token.Token]token.Token{token.LSS: token.GTR, token.GTR: token.LSS, token.LEQ: token.GEQ, token.GEQ: token.LEQ, token.EQL: token.EQL, token.NEQ: token.NEQ}
+			if op, ok := m[b.Op]; ok {
+				return b.Y, op, b.X
+			}
+		}
+	}
+	return b.X, b.Op, b.Y
 }
